@@ -144,6 +144,15 @@ func ParseMxFunctionParameters(parameters string) ([]MurexFuncParam, error) {
 			case fpcNameStart, fpcDescEnd, fpcDefaultEnd:
 				y++
 				x = 1
+			case fpcDescStart:
+				// new line after `name: type ` (no default nor description)
+				y++
+				x = 1
+			case fpcTypeRead:
+				// new line directly after the data type ends the data type
+				context++
+				y++
+				x = 1
 			default:
 				return nil, fmt.Errorf(fpeUnexpectedNewLine, i+1, y, x)
 			}
@@ -196,6 +205,8 @@ func ParseMxFunctionParameters(parameters string) ([]MurexFuncParam, error) {
 			case fpcDescStart, fpcDescEnd:
 				context = fpcDefaultRead
 				mfp[counter].HasDefault = true
+			default:
+				return nil, fmt.Errorf(fpeUnexpectedCharacter, "[", r, i+1, y, x)
 			}
 
 		case ']':
